@@ -88,7 +88,7 @@ def run_case(lab: Lab, inp, base_values):
     try:
         if not first_is_rq:
             s.sendall(pn.rq_pdu().encode())
-            ac = recv_pdu(s, 2.0)
+            ac = recv_pdu(s, 8.0)
             if not ac or ac[0] != 2:
                 raise MachineryError("lab did not accept the set-up association")
             time.sleep(0.01)
